@@ -1018,4 +1018,38 @@ func init() {
 	addMutants("C07",
 		mutant{"query-range-test-dropped", "pkg/core/hnsw/hnsw_index.go", "\tif !(maxAbs > 0) || math.IsInf(float64(maxAbs), 0) {\n\t\treturn fallback.Quantize(q)\n\t}\n\treturn (&distance.Quantizer{AbsMax: maxAbs}).Quantize(q)\n", "\t_ = maxAbs\n\treturn fallback.Quantize(q)\n", "GRD-queryscale", "at-its-own-scale"},
 	)
+	// ---- round 9
+	m = mutant{"hard-unlink-filters-the-reverse-list-by-the-target", "pkg/core/graph.go", "\t\t\t\t\tif edge.SourceID != sourceID {\n", "\t\t\t\t\tif edge.SourceID != targetID {\n", "SIB-peerparam", "DB.RemoveEdge:SourceID:compared-with-one-parameter"}
+	addMutants("C02", m)
+	addMutants("C06", m)
+	addMutants("C10", m)
+	addMutants("C08",
+		mutant{"filter-literal-trimmed-of-quotes-and-blanks-at-once", "pkg/core/core.go", "\tvalueStr = strings.Trim(valueStr, \"'\\\"\")\n", "\tvalueStr = strings.Trim(valueStr, \"'\\\" \")\n", "GRD-quotetrim", "quotes-only"},
+	)
+	addMutants("C07",
+		mutant{"base-layer-searched-with-the-callers-ef", "pkg/core/hnsw/hnsw_index.go", "k, 0, allowList, actualEfSearch, currentCounter, scratchOut)", "k, 0, allowList, efSearch, currentCounter, scratchOut)", "GRD-efboost", "searches-with-the-computed-width"},
+	)
+	addMutants("C10",
+		mutant{"vacuum-drops-the-relation-from-the-other-view", "pkg/core/graph.go", "\t\t\t\tif len(newOut) == 0 {\n\t\t\t\t\tdelete(node.OutEdges, rel)\n", "\t\t\t\tif len(newOut) == 0 {\n\t\t\t\t\tdelete(node.InEdges, rel)\n", "GRD-viewdelete", "from-the-map-it-ranges-over"},
+	)
+	addMutants("C03",
+		mutant{"frame-payload-read-with-one-read", "pkg/persistence/frame.go", "\tif _, err := io.ReadFull(r, payload); err != nil {\n", "\tif _, err := r.Read(payload); err != nil {\n", "GRD-shortread", "fills-the-buffer"},
+	)
+	m = mutant{"compaction-dates-the-link-record-with-the-end-time", "pkg/engine/recovery.go", "\t\tcTimeStr := strconv.FormatInt(cTime, 10)\n", "\t\tcTimeStr := strconv.FormatInt(dTime, 10)\n", "CDC-9", "GLINK:carries-the-time-the-version-was-created"}
+	addMutants("C01", m)
+	addMutants("C10", m)
+	m = mutant{"dropped-index-keeps-its-graph-nodes", "pkg/engine/ops.go", "\te.DB.RemoveGraphNodesWithPrefix(buildGraphID(name, \"\"))\n", "", "GRD-dropgraph", "Engine.VDeleteIndex:drop#1"}
+	addMutants("C04", m)
+	addMutants("C12", m)
+	m = mutant{"replayed-drop-purges-the-graph-only-for-a-restored-index", "pkg/engine/recovery.go", "\t\t\t\tif created || restored {\n\t\t\t\t\te.DB.RemoveGraphNodesWithPrefix(", "\t\t\t\t_ = created\n\t\t\t\tif restored {\n\t\t\t\t\te.DB.RemoveGraphNodesWithPrefix(", "GRD-dropgraph", "Engine.replayAOF:drop#1"}
+	addMutants("C04", m)
+	addMutants("C12", m)
+	addMutants("C07",
+		mutant{"vacuum-elects-the-first-live-node", "pkg/core/hnsw/optimizer.go", "\t\t\t\tif level := len(node.Connections) - 1; !newEntryFound || level > bestLevel {\n\t\t\t\t\to.index.entrypointID.Store(uint32(i))\n\t\t\t\t\to.index.maxLevel.Store(int32(level))\n\t\t\t\t\tbestLevel = level\n\t\t\t\t}\n\t\t\t\tnewEntryFound = true\n", "\t\t\t\to.index.entrypointID.Store(uint32(i))\n\t\t\t\to.index.maxLevel.Store(int32(len(node.Connections) - 1))\n\t\t\t\tnewEntryFound = true\n\t\t\t\t_ = bestLevel\n\t\t\t\tbreak\n", "GRD-electtop", "keeps-scanning-for-a-higher-level"},
+		mutant{"vacuum-elects-the-last-live-node", "pkg/core/hnsw/optimizer.go", "\t\t\t\tif level := len(node.Connections) - 1; !newEntryFound || level > bestLevel {\n", "\t\t\t\tif level := len(node.Connections) - 1; bestLevel < 0 || level >= 0 {\n", "GRD-electtop", "keeps-scanning-for-a-higher-level"},
+	)
+	addMutants("C19",
+		mutant{"status-committed-before-the-payload-is-encoded", "internal/server/http_handlers.go", "\tbody, err := json.Marshal(payload)\n\tif err != nil {\n\t\tlog.Printf(\"INTERNAL SERVER ERROR: response cannot be encoded: %v\", err)\n\t\tstatusCode = http.StatusInternalServerError\n\t\tbody = []byte(`{\"error\":\"Internal Server Error\"}`)\n\t}\n\tw.Header().Set(\"Content-Type\", \"application/json\")\n\tw.WriteHeader(statusCode)\n\tw.Write(append(body, '\\n'))\n", "\tw.Header().Set(\"Content-Type\", \"application/json\")\n\tw.WriteHeader(statusCode)\n\tjson.NewEncoder(w).Encode(payload)\n", "WEB-encode", "after-the-payload-is-encoded"},
+		mutant{"encoding-error-of-the-response-ignored", "internal/server/http_handlers.go", "\tbody, err := json.Marshal(payload)\n\tif err != nil {\n\t\tlog.Printf(\"INTERNAL SERVER ERROR: response cannot be encoded: %v\", err)\n\t\tstatusCode = http.StatusInternalServerError\n\t\tbody = []byte(`{\"error\":\"Internal Server Error\"}`)\n\t}\n", "\tbody, _ := json.Marshal(payload)\n", "WEB-encode", "after-the-payload-is-encoded"},
+	)
 }
